@@ -1226,9 +1226,43 @@ MID_LABELS = ["corp", "lab", "my-dom", "x", "dc1", "int_net", "abc", "example"]
 LAST_LABELS = ["lan", "local", "internal", "io", "com", "localdomain", "org", "net"]
 
 
+def case_variant(rng, s):
+    """the same name in another letter case"""
+    k = rng.randrange(5)
+    if k == 0:
+        return s.upper()
+    if k == 1:
+        return s.lower()
+    if k == 2:
+        return s.swapcase()
+    if k == 3:
+        return ".".join(x[:1].upper() + x[1:] for x in s.split("."))
+    return "".join(c.upper() if rng.random() < 0.5 else c.lower() for c in s)
+
+
 def g_fqdn(rng):
-    """the system's name with 1, 2, 3 or 4+ labels (two labels: at least a quarter), TLD-like last labels,
-    digits / hyphens / underscores inside labels"""
+    """the system's name AS THE CALLER GIVES IT: 1, 2, 3 or 4+ labels (two labels: at least a quarter), TLD-like last
+    labels, digits / hyphens / underscores inside labels; a third with upper-case letters in the short name, in the domain
+    or in both (WebSrv01.Corp.Example.org); a few with white space around or a trailing dot"""
+    f = g_fqdn_lower(rng)
+    k = rng.random()
+    if k < 0.33:
+        labels = f.split(".")
+        where = rng.choice(["short", "domain", "both"]) if len(labels) > 1 else "short"
+        sh, dom = labels[0], ".".join(labels[1:])
+        if where in ("short", "both"):
+            sh = case_variant(rng, sh)
+            sh = sh if sh != sh.lower() else sh[:1].upper() + sh[1:]
+        if where in ("domain", "both"):
+            dom = case_variant(rng, dom)
+            dom = dom if dom != dom.lower() else dom[:1].upper() + dom[1:]
+        f = sh + ("." + dom if dom else "")
+    if rng.random() < 0.06:
+        f = rng.choice([" " + f, f + " ", f + ".", " " + f + " ", "\t" + f])
+    return f
+
+
+def g_fqdn_lower(rng):
     if rng.random() < 0.2:
         return rng.choice(FQDNS)
     k = rng.random()
@@ -1332,11 +1366,19 @@ def g_host(rng, fqdn):
     dom = system_domain(fqdn)
     k = rng.randrange(14)
     if dom is None:
-        return [short, short + "x", "x" + short, short + ".example.org", short][k % 5]
+        t = [short, short + "x", "x" + short, short + ".example.org", short][k % 5]
+        return case_variant(rng, t) if rng.random() < 0.15 else t
     other = rng.choice(["db1", "app-3", "x", "www", "a.b", "smtp_1", "db07", "a.b.c", "n-1.dc_2"])
-    return [short, fqdn, fqdn, other + "." + dom, other + "." + dom, other + "." + dom + ":8080",
-            "http://" + fqdn + "/p", dom, "." + dom, "-" + other + "." + dom, other + "." + dom + ".",
-            short + "." + dom + "munity", other + "." + dom.replace(".", "X", 1), "x" + short + "y"][k]
+    if rng.random() < 0.3:
+        other = case_variant(rng, other)
+    t = [short, fqdn, fqdn, other + "." + dom, other + "." + dom, other + "." + dom + ":8080",
+         "http://" + fqdn + "/p", dom, "." + dom, "-" + other + "." + dom, other + "." + dom + ".",
+         short + "." + dom + "munity", other + "." + dom.replace(".", "X", 1), "x" + short + "y"][k]
+    if rng.random() < 0.15:
+        # the same text in ANOTHER letter case, or without the white space / dot the configured spelling carries: what the
+        # cleaner does with it is decided by the correspondence (matching is by the configured spelling, verbatim)
+        t = rng.choice([case_variant(rng, t), t.strip(), t.strip().rstrip(".")])
+    return t
 
 
 def g_password(rng):
@@ -1509,7 +1551,7 @@ def g_rxlist_case(rng):
 def g_sys(rng, cfg):
     """the Cleaner is built WITHOUT fqdn: generated answers of the socket functions, labels in the configuration; the
     case's fqdn (model parameter, oracle) becomes the name the harness's own statement of determine_hostname() gives"""
-    F = cfg["fqdn"]
+    F = cfg["fqdn"].strip().rstrip(".") or "h"      # (the socket functions do not answer with white space around)
     short = F.split(".")[0]
     k = rng.randrange(8)
     if k == 0:
